@@ -875,4 +875,5 @@ func TestC13(t *testing.T) {
 	hx.Run(s, c13Docs, s.N(4000, 40000))
 	hx.Run(s, c13Reqs, s.N(5000, 50000))
 	hx.Each(s, c13Odd, true, c13OddCases)
+	hx.Run(s, c13Keys, s.N(400, 4000))
 }
